@@ -4,6 +4,7 @@ Problems.tla enumerates the KKT patterns; for each pattern an instance is built 
 x*, so f* (F*) is known exactly; the real solver runs under the recorder with its default budget, the trace is validated against
 DfolsTrace.tla, and the final clause requires: success flag, feasible x, obj - f* <= tol*(1 + f*)   (tol = 1e-6 for C05, 1e-3 for C06).
 """
+import math
 import os
 
 import numpy as np
@@ -125,6 +126,11 @@ def concretise_c06(st, seed, iid):
     A = rand_A(rng, m, n, st["cond"])
     nA2 = float(np.linalg.norm(A, 2)) ** 2
     lam = float(rng.choice([1e-2, 1e-1, 1.0])) * nA2
+    if st.get("special") == "lh_other_type" and st["reg"] == "l2":
+        # the l2-norm's Lipschitz constant is lambda itself: an integer lambda, and data scaled so that it is of the usual relative size
+        lam = float(rng.choice([1, 2, 3]))
+        A = A * math.sqrt(lam / (float(rng.choice([1e-1, 1.0])) * nA2))
+        nA2 = float(np.linalg.norm(A, 2)) ** 2
     status = st["status"]
     xs = np.zeros(n)
     gamma = np.zeros(n)
@@ -193,6 +199,10 @@ def concretise_c06(st, seed, iid):
     inst = dict(id=iid, seed=seed, n=n, m=m, prob="explicit", explicit=dict(A=A.tolist(), b=b.tolist(), x0=x0.tolist(), lo=None if lo is None else lo.tolist(),
                                                                             hi=None if hi is None else hi.tolist()),
                 reg=st["reg"], lam=lam, args=bool(st["args"]), fstar=Fstar, opttol=1e-3, pattern=st, timeout=600.0, maxfun_default=min(100 * (n + 1), 1000), rhoend=1e-8)
+    if st.get("special") == "averaging":
+        inst.update(nsamples="2", maxfun_default=min(200 * (n + 1), 2000))
+    if st.get("special") == "lh_other_type":
+        inst["lhtype"] = "int" if st["reg"] == "l2" else "float32"
     if st.get("special") == "hard_restarts":
         inst["user_params"] = {"restarts.use_restarts": True, "restarts.use_soft_restarts": False, "restarts.max_unsuccessful_restarts": 2,
                                "restarts.hard.use_old_rk": bool(rng.random() < 0.5)}
